@@ -15,7 +15,7 @@ PROFILES = {
     "accum":     dict(sig=3, slot=3, conn=2, block=3, emit=5, clear=1, track=1, handle=0, slotval=0, scoped=0, chain=0, reent=1, throw=0, acc=8),
 }
 
-SHAPES_BY_NREFS = {0: ["p"], 1: ["m", "b", "t"], 2: ["b", "t"], 3: ["b", "t"]}
+SHAPES_BY_NREFS = {0: ["p"], 1: ["m", "n", "b", "t"], 2: ["b", "t"], 3: ["b", "t"]}
 
 
 class Gen:
@@ -487,7 +487,7 @@ def scenario_owner_sweep(r):
     sid = 0
     for k in order:
         if k == "A":
-            shape = r.choice("mbt")
+            shape = r.choice("mnbt")
             main.append("snew %d %s %d %s 1 %d" % (sid, rk, ba, shape, T))
         elif k == "B":
             main.append("snew %d %s %d p 0" % (sid, rk, bo))
